@@ -54,6 +54,9 @@ def alphabet(pname):
            ['assign', 'v1'], ['assign', 'v2'], ['assign', 'bad'], ['announce_err', 'E1']]
     if pname == 'x':
         ops += [['write', 'v1'], ['write', 'v2'], ['change', 'v1'], ['change', 'bad']]
+    if pname == 'value':
+        # a value differing from v1 in the last bits only: still a different value, the stream has to show it (wave 8, S05k)
+        ops += [['read', 'v1n'], ['assign', 'v1n']]
     if pname == 'e':
         ops += [['assign', 'name1']]        # the member name instead of its value: an equal value
     ops += [['tick', t] for t in TICKS]
@@ -155,7 +158,7 @@ class SeqWorld:
         from vf.engines import schedx
         kind, arg = op
         v1, v2, bad = PARAMS[self.pname]
-        val = {'v1': v1, 'v2': v2, 'bad': bad, 'name1': 'a'}.get(arg)
+        val = {'v1': v1, 'v2': v2, 'bad': bad, 'name1': 'a', 'v1n': v1 * (1 + 4e-10) if isinstance(v1, float) else None}.get(arg)
         delivered = None
         if kind == 'tick':
             schedx.set_vnow(schedx.vtime() + arg)
